@@ -152,6 +152,8 @@ class FrameNcp:
             out = []
             for T in schema.values():
                 v, _ = T.deserialize(zeros)
+                if isinstance(v, list) and len(v) > 64:
+                    v = v[:41]  # open-ended lists (e.g. the counters): a realistic number of entries
                 out.append(v)
             return out
         v, _ = schema.deserialize(zeros)
